@@ -62,3 +62,62 @@ Proof. vm_compute. reflexivity. Qed.
 
 Example ex_edge : match split ex_graph with Some r => sedge (r_cross r) 0 2 /\ sedge (r_cross r) 1 2 | None => False end.
 Proof. vm_compute. split; left; reflexivity. Qed.
+
+(* ---- deepening round ---- *)
+From V Require Import C10.ListLemmas C10.CrossProofs C10.Eval C10.EvalProofs.
+From Coq Require Import Relations.
+
+(* cross_chunk_imports_exact, third case: the entry chunk of e0 (chunk 0) references m0's v
+   = (3,0), which is declared in the shared chunk 2 and exported there as "v"; the import ref
+   (1,10) was followed through ImportsToBind *)
+Example ex_exact :
+  match split ex_graph with
+  | Some r =>
+    let a := r_analysis r in
+    (mems (3, 0)%nat (chunk_uses ex_graph (nth 0 (a_chunks a) dchunk)),
+     mems (1, 10)%nat (chunk_uses ex_graph (nth 0 (a_chunks a) dchunk)),
+     chunk_of_sym ex_graph a (3, 0)%nat,
+     lookup_alias (3, 0)%nat (x_exports (nth 2 (r_cross r) dcross)),
+     map i_chunk (static_imports (nth 0 (r_cross r) dcross)))
+    = (true, false, Some 2%nat, Some [118], [2%nat])
+  | None => False
+  end.
+Proof. vm_compute. reflexivity. Qed.
+
+(* the witness of the refuted order claim, and what does hold on it *)
+Example ex_orders :
+  (native_order order_witness 1, split_order order_witness_result 0, chunk_eval_order order_witness_result 0)
+  = ([3; 4; 1]%nat, [4; 3; 1]%nat, [2; 0]%nat).
+Proof. vm_compute. reflexivity. Qed.
+
+Lemma two_level_acyclic succ : (forall x y, In y (succ x) -> succ y = []) ->
+  forall x, ~ clos_trans nat (E succ) x x.
+Proof.
+  intros H x P. apply clos_trans_t1n in P.
+  assert (F : forall a b, clos_trans_1n nat (E succ) a b -> exists c, In c (succ a)).
+  { intros a b Q. destruct Q as [b Q|b c Q _]; exists b; exact Q. }
+  inversion P as [y Hy|y z Hy Q]; subst.
+  - pose proof (H x x Hy) as Z. unfold E in Hy. rewrite Z in Hy. destruct Hy.
+  - destruct (F _ _ Q) as [c Hc]. rewrite (H x y Hy) in Hc. destruct Hc.
+Qed.
+
+(* hypotheses of chunk_order_respects_imports on the entry chunk of e0 in the witness graph:
+   e0 (1) imports a (3), both are in chunk 0, and a is emitted first *)
+Example ex_chunk_order :
+  let a := r_analysis order_witness_result in
+  let c := nth 0 (a_chunks a) dchunk in
+  In 3%nat (chunk_order order_witness a c) /\ before 3%nat 1%nat (chunk_order order_witness a c).
+Proof.
+  intros a c. apply (chunk_order_respects_imports_all order_witness a c 1 3).
+  - apply two_level_acyclic. intros x y Hy.
+    destruct x as [|[|[|[|[|[|x]]]]]]; vm_compute in Hy; try contradiction;
+      repeat (destruct Hy as [<-|Hy]; [vm_compute; reflexivity|]); contradiction.
+  - intros x y Hy.
+    destruct x as [|[|[|[|[|[|x]]]]]]; vm_compute in Hy; try contradiction;
+      repeat (destruct Hy as [<-|Hy]; [vm_compute; lia|]); contradiction.
+  - intros x Hx. vm_compute in Hx. repeat (destruct Hx as [<-|Hx]; [vm_compute; lia|]). contradiction.
+  - vm_compute. lia.
+  - vm_compute. auto.
+  - vm_compute. auto.
+  - vm_compute. reflexivity.
+Qed.
